@@ -42,6 +42,7 @@ func (ind Ind) RunSlices(c Config, ins [][]float64, opt pipe.Opts) (pipe.Result[
 
 // Idle returns the declared idle period of a configuration.
 func (ind Ind) Idle(c Config) int {
+	c.PrevP, c.PrevF, c.PrevN = nil, nil, 0
 	_, w := ind.Build(c)
 	return w
 }
